@@ -117,7 +117,7 @@ class C14(Prop):
                             'x unless y', 'x W y;', 'always[0,1]', 'G[0:1s] x', '1', '-1', '- - 1', 'x;y', 'x; y;',
                             'a = x; b = a and y; out = b or a;', 'always[0,kk] x', 'always[1,0] x', 'once[2s,1000ms] x',
                             'once[1001ms,1s] x'])
-            return {'type': 'parse', 'text': t, 'declared': ['x', 'y'], 'mutated': True}
+            return {'type': 'parse', 'text': t, 'declared': ['x', 'y'], 'mutated': True, 'again': rng.choice([0, 1, 2])}
         t = self.valid_text(rng)
         mutated = rng.random() < 0.8
         if mutated:
@@ -125,7 +125,7 @@ class C14(Prop):
             if rng.random() < 0.2:
                 t = self.mutate(rng, t)
         return {'type': 'parse', 'text': t, 'declared': rng.choice([['x', 'y', 'z'], ['x'], []]), 'mutated': mutated,
-                'const': rng.random() < 0.3}
+                'const': rng.random() < 0.3, 'again': rng.choice([0, 0, 0, 1, 2])}
 
     def gen_undeclared(self, rng):
         c = lang.GenCfg(vars=['x', 'y', 'z'], max_depth=rng.choice([1, 2, 3]), future=rng.random() < 0.5, max_bound=3)
@@ -154,14 +154,18 @@ class C14(Prop):
         err = io.StringIO()
         old = sys.stderr
         sys.stderr = err
+        m = None
         try:
             try:
-                m = drive.Mon('dt', {'text': text, 'vars': declared, 'consts': consts})
+                m = drive.Mon('dt', {'text': text, 'vars': declared, 'consts': consts}, parse=False)
+                m.parse()
             finally:
                 sys.stderr = old
         except Exception as e:
             if drive.is_rtamt_exc(e):
                 v.info['outcome:RTAMTException'] = 1
+                if m is not None:
+                    self.again(v, m, text, False, case)
                 return v
             v.bad('parse-raises:' + type(e).__name__, 'parse() of %r raised %s: %s (recogniser: %s)' % (
                 text, type(e).__name__, str(e)[:120], 'derivable' if ok else why))
@@ -172,7 +176,46 @@ class C14(Prop):
                 text, why, err.getvalue()[:120]))
         elif probs:
             v.bad('accepted-bad-interval', 'parse() accepted %r: %s' % (text, '; '.join(probs)))
+        else:
+            self.again(v, m, text, True, case)
         return v
+
+    def again(self, v, m, text, accepted, case):
+        """The verdict of parse() belongs to the text, not to the history of the object: a second parse() of the
+        same text, and a parse() after the text was replaced, must decide like a fresh object does."""
+        k = case.get('again', 0)
+        if not k:
+            return
+        err, old = io.StringIO(), sys.stderr
+        sys.stderr = err
+        try:
+            if k == 1:
+                label, want = 'second parse() of the same text', accepted
+            else:
+                other = 'out = ((x >= 1) and' if accepted else 'out = (once[0,1] (x >= 1))'
+                m.spec.spec = other
+                label, want = 'parse() after the text was replaced by %r' % other, not accepted
+            try:
+                m.parse()
+                got = True
+            except Exception as e:
+                if not drive.is_rtamt_exc(e):
+                    v.bad('reparse-raises:' + type(e).__name__, '%r (first parse %s): %s raised %s: %s' % (
+                        text, 'accepted' if accepted else 'rejected', label, type(e).__name__, str(e)[:120]))
+                    return
+                got = False
+        finally:
+            sys.stderr = old
+        v.info['reparse:%d' % k] = 1
+        if k == 1 and accepted and not got:
+            # re-parsing an accepted text may be refused cleanly (its in-text declarations exist already):
+            # the statement only forbids acceptance of underivable texts and unclean failures
+            v.info['reparse:accepted-text-refused-cleanly'] = 1
+            return
+        if got != want:
+            v.bad('reparse-differs', '%r was %s by the first parse(); %s on the same object %s' % (
+                text, 'accepted' if accepted else 'rejected with RTAMTException', label,
+                'returned normally' if got else 'raised RTAMTException'))
 
     def judge_undeclared(self, case):
         v = Verdict()
